@@ -61,9 +61,9 @@ func runMBDecision(c *core.Ctx) {
 	}
 	rows := []dtRow{
 		{fn: "relaxedMailboxesLocal.handleConn", key: "delivers-decoded-message", occ: true, why: "every successfully decoded message is delivered (and nothing else)", find: sendOn("msgChannel"),
-			bools: []string{"err==nil#1", "err==nil#2", "err==nil#3"}, ref: func(a dtAtoms) bool { return a.B("err==nil#2") && a.B("err==nil#3") }},
+			bools: []string{"err==nil#1", "err==nil#2"}, ref: func(a dtAtoms) bool { return a.B("err==nil#1") && a.B("err==nil#2") }},
 		{fn: "relaxedMailboxesRemote.WriteValue", key: "marks-sent-after-successful-encode", occ: true, why: "the section counts as having sent only when the message went out", find: storeFieldConst("hasSent", true),
-			bools: []string{"err==nil#1", "err==nil#2", "err==nil#3"}, ref: func(a dtAtoms) bool { return a.B("err==nil#2") && a.B("err==nil#3") }},
+			bools: []string{"err==nil#1", "err==nil#2"}, ref: func(a dtAtoms) bool { return a.B("err==nil#1") && a.B("err==nil#2") }},
 		{fn: "relaxedMailboxesRemote.Commit", key: "forgets-sent", why: "the next section starts unsent", find: storeFieldConst("hasSent", false), ref: func(a dtAtoms) bool { return true }},
 		{fn: "relaxedMailboxesLocal.ReadValue", key: "backlog-first", why: "redelivered messages are served before new ones", find: backlogPop, ints: map[string]string{"len($.readBacklog)": ""},
 			ref: func(a dtAtoms) bool { return a.I("len($.readBacklog)") > 0 }},
